@@ -16,7 +16,7 @@ from .. import kit as K
 from ..errors import AnalysisError
 from ..interp import Interp
 from ..report import Check
-from ..values import ADict, AList, ClassInfo, ExtObj, Obj, PyRaise, Unknown
+from ..values import ADict, AList, BoundMethod, ClassInfo, ExtObj, Obj, PyRaise, Unknown
 
 ROLES = {
     # role: (writer reference method, reader reference method, "" allowed as key)
@@ -53,6 +53,10 @@ def _clone(v: Any, memo: dict, ren: dict) -> Any:
         memo[id(v)] = d
         d.pairs = [[_clone(a, memo, ren), _clone(b, memo, ren)] for a, b in v.pairs]
         return d
+    if isinstance(v, BoundMethod):
+        b = BoundMethod(_clone(v.self_obj, memo, ren), v.func)
+        memo[id(v)] = b
+        return b
     return v  # ClassInfo, FuncRef, ... are immutable program entities
 
 
@@ -132,7 +136,7 @@ def explore_role(chk: Check, it: Interp, role: str, size: int, max_states: int) 
         enc, dec, hist = work.pop()
         _, _, _, present = _canon(enc, dec)
         fresh = f"key{len(present)}"
-        ops = list(present) + [fresh] + ([""] if empty_ok else [])
+        ops = list(present) + ([fresh] if len(present) < size + 2 else []) + ([""] if empty_ok else [])
         for key in ops:
             memo: dict = {}
             e2, d2 = _clone((enc, dec), memo, {})
@@ -170,6 +174,62 @@ def explore_role(chk: Check, it: Interp, role: str, size: int, max_states: int) 
     return {"role": role, "size": size, "states": len(seen), "transitions": transitions}
 
 
+def explore_termencoder(col: Any, it: Interp, table: str, size: int, max_states: int) -> dict:
+    """The same fixpoint one level up, at the API the property names: TermEncoder.encode_iri / encode_literal rows and
+    indices fed to Decoder (entries ingested, then decode_iri / decode_literal).  Catches state kept beside the lookups."""
+    k = K.Kit(it)
+    w = K.Wire(it)
+    preset = (8, size, 8) if table == "prefix" else (8, 8, size)
+    enc0 = k.new(K.EN, "TermEncoder", lookup_preset=k.preset(*preset))
+    popts = k.new(K.DE, "ParserOptions", k.new(K.OP, "StreamTypes", 1, 1), k.preset(*preset), k.params())
+    dec0 = k.new(K.DE, "Decoder", adapter=k.new(K.GP, "GenericTriplesAdapter", popts))
+    enc0, dec0, fz0, _ = _canon(enc0, dec0)
+    seen = {fz0}
+    work = [(enc0, dec0, [])]
+    transitions = 0
+    rule = "C05.FIXPOINT.term-encoder"
+    construct = f"pyjelly.serialize.encode.TermEncoder.{'encode_iri' if table == 'prefix' else 'encode_literal'}<->pyjelly.parse.decode.Decoder"
+    while work:
+        enc, dec, hist = work.pop()
+        _, _, _, present = _canon(enc, dec)
+        present = [p_ for p_ in present if not p_.endswith("#n")]
+        keys_present = sorted({p_.split("#")[0] for p_ in present})
+        fresh = f"key{len(keys_present)}"
+        # key alphabet of size + 2 (sufficient by key-renaming symmetry); also keeps the state space finite when the code
+        # under analysis remembers every key it has ever seen
+        for key in keys_present + ([fresh] if len(keys_present) < size + 2 else []):
+            memo: dict = {}
+            e2, d2 = _clone((enc, dec), memo, {})
+            step = {"table": table, "size": size, "history": hist[-6:], "key": key}
+            try:
+                if table == "prefix":
+                    msg = w.msg("RdfIri")
+                    rows = k.method(e2, "encode_iri", key + "#n", msg)
+                    want = key + "#n"
+                else:
+                    msg = w.msg("RdfLiteral")
+                    rows = k.method(e2, "encode_literal", lex="x", datatype=key, literal=msg)
+                    want = key
+                it.drain(k.method(d2, "iter_rows", w.frame(it.drain(rows))))
+                term = k.method(d2, "decode_iri" if table == "prefix" else "decode_literal", msg)
+                vals = list(term.attrs.values())
+                got = vals[0] if table == "prefix" else vals[2]
+            except PyRaise as pr:
+                col.fail(rule, f"{table} S={size} {hist[-4:]}+{key!r}", construct, f"{table} table size {size}: after history {hist[-6:]} encoding a term with {key!r} and decoding it raises {it.exc_class_name(pr.exc)} at {pr.site}", step)
+                continue
+            transitions += 1
+            if got != want:
+                col.fail(rule, f"{table} S={size} {hist[-4:]}+{key!r}", construct, f"{table} table size {size}: after history {hist[-6:]} a term with {want!r} is written so that the reader resolves {got!r}", step)
+                continue
+            e3, d3, fz, _ = _canon(e2, d2)
+            if fz not in seen:
+                seen.add(fz)
+                if len(seen) > max_states:
+                    raise AnalysisError(f"C05: more than {max_states} states for TermEncoder {table} S={size}")
+                work.append((e3, d3, hist + [key]))
+    return {"role": f"{table}@TermEncoder", "size": size, "states": len(seen), "transitions": transitions}
+
+
 class _Collector:
     """Stand-in for Check inside worker processes (collects failures)."""
 
@@ -188,7 +248,10 @@ def _explore_job(prog, job: tuple) -> dict:
     it = Interp(prog, max_steps=10**11)
     it.record_events = False
     col = _Collector()
-    res = explore_role(col, it, role, size, 2_000_000)  # type: ignore[arg-type]
+    if role.endswith("@TermEncoder"):
+        res = explore_termencoder(col, it, role.split("@")[0], size, 500_000)
+    else:
+        res = explore_role(col, it, role, size, 2_000_000)  # type: ignore[arg-type]
     res["fails"] = col.fails
     return res
 
@@ -205,7 +268,8 @@ def check(chk: Check) -> None:
     chk.undecided += ["table sizes above the enumerated bound (the rules only compare indices, so larger sizes add no new ordering patterns)", "statement-level in-use eviction (C18)"]
     from ..par import pmap
 
-    jobs = [(role, s_) for role in ROLES for s_ in sizes]
+    chk.rule("C05.FIXPOINT.term-encoder", "the same closure one level up: TermEncoder.encode_iri/encode_literal -> rows -> Decoder resolves the string the writer meant (prefix and datatype tables of size 1..3)", floor=6)
+    jobs = [(role, s_) for role in ROLES for s_ in sizes] + [(t + "@TermEncoder", s_) for t in ("prefix", "datatype") for s_ in (1, 2, 3)]
     total_states = 0
     for res in pmap(_explore_job, jobs, min_parallel=4):
         if res is None:
@@ -215,7 +279,9 @@ def check(chk: Check) -> None:
         role, s_ = res["role"], res["size"]
         for rule, inst, construct, msg, detail in res["fails"]:
             chk.fail(rule, inst, construct, msg, detail)
-        if not res["fails"]:
+        if not res["fails"] and role.endswith("@TermEncoder"):
+            chk.ok("C05.FIXPOINT.term-encoder", f"{role} S={s_}", {k_: v for k_, v in res.items() if k_ != "fails"})
+        elif not res["fails"]:
             chk.ok("C05.FIXPOINT.mirror", f"{role} S={s_}", {k_: v for k_, v in res.items() if k_ != "fails"})
             chk.ok("C05.TABLE.range", f"{role} S={s_}", {"transitions_checked": res["transitions"], "ids_within": [0, s_]})
     chk.note(f"reachable joint states (up to key renaming): {total_states}")
